@@ -467,7 +467,10 @@ func constructSourceComment(module, file, leadingString string, includeSourceInf
 		return ""
 	}
 
-	return fmt.Sprintf(" #%s module: %s, file: %s", leadingString, module, file)
+	// the comment has to stay on its line: a line break in a module or file name would end it early
+	oneLine := strings.NewReplacer("\r", " ", "\n", " ")
+
+	return fmt.Sprintf(" #%s module: %s, file: %s", leadingString, oneLine.Replace(module), oneLine.Replace(file))
 }
 
 type transformOptions struct {
